@@ -189,7 +189,7 @@ def _spec(text, env):
         return float('nan')
 
 
-def run_metrics(pnls, types, fees, holds, balances, start=10000.0):
+def run_metrics(pnls, types, fees, holds, balances, start=10000.0, t0=1609459200000, final=True):
     from native.world import session
     from jesse.services import metrics
     from jesse.store import store
@@ -197,13 +197,16 @@ def run_metrics(pnls, types, fees, holds, balances, start=10000.0):
     class T_:
         def __init__(self, d): self.to_dict = d
     w = session('futures', leverage=1, balance=start)
-    store.app.starting_time = 1609459200000
+    store.app.starting_time = t0
     trades = [T_({'id': j, 'type': types[j], 'PNL': pnls[j], 'fee': fees[j], 'holding_period': holds[j], 'size': 1.0, 'entry_price': 100.0})
               for j in range(len(pnls))]
     import warnings
     with warnings.catch_warnings():
         warnings.simplefilter('ignore')
-        m = metrics.trades(trades, list(balances))
+        given = list(balances)
+        m = metrics.trades(trades, given, final=final)
+        if given != list(balances):
+            m['__args_modified__'] = True
     finish = w['exchange'].assets['USDT']
     return m, start, finish
 
@@ -238,8 +241,14 @@ def metric_scenarios(pl):
                       [rng.choice(['long', 'short']) for _ in range(n)], [round(rng.uniform(0, 0.5), 3) for _ in range(n)],
                       [float(rng.randint(1, 5000)) for _ in range(n)],
                       [round(100.0 * (1 + rng.uniform(-0.2, 0.2)), 2) for _ in range(rng.randint(2, 6))]))
-    for pnls, types, fees, holds, balances in cases:
-        m, start, finish = run_metrics(pnls, types, fees, holds, balances)
+    # start dates: 2021-01-01, and 2020-12-29 (the equity index runs over 31 December of a leap year); both values of `final`
+    variants = [(1609459200000, True), (1609200000000, True), (1609459200000, False)]
+    runs = [(c, variants[0]) for c in cases] + [(c, v) for c in cases[:8] for v in variants[1:]]
+    for (pnls, types, fees, holds, balances), (t0, final) in runs:
+        m, start, finish = run_metrics(pnls, types, fees, holds, balances, t0=t0, final=final)
+        if m.get('__args_modified__'):
+            return f'metrics.trades(final={final}) modified the daily-balance list it was given ({len(balances)} samples before the call)'
+
         env = dict(pnls=pnls, types=types, fees=fees, holds=holds, start=start, finish=finish, balances=balances, m=m)
         for key, text in list(K.TRADE_METRICS.items()) + list(K.RATIO_METRICS.items()):
             want = _spec(text, env)
